@@ -130,6 +130,7 @@ PROPS["C02"] = {
     "theorems": [MUQ + t for t in ["C02_try_wait_free", "C02_inv_spin", "C02_inv_spin_queue", "C02_inv_lock", "C02_inv_queue", "C02_inv_hint",
                  "C02_responsible", "C02_woken_not_lost", "C02_no_stuck_state", "C02_solo_progress_partial"]],
     "layers": ["muq", "mux"],
+    "tie": ["NsyncVerif.Proofs.TieConsts"],
     "oracles": {"stuck", "steplimit", "try-blocked", "panic", "crash"},
     "plan": {"quick": [("core", 200, 8), ("muwait", 60, 6), ("cv", 60, 6), ("cv_rsignal", 40, 6)],
              "thorough": [("core", 2000, 16), ("muwait", 600, 12), ("cv", 600, 12), ("cv_rsignal", 400, 12), ("mixed", 600, 12)]},
